@@ -93,6 +93,9 @@ type Lemma struct {
 	Induct   string // induction variable (natural number), optional
 	Uses     []string
 	Text     string
+	Props    map[string]bool
+	File     string
+	Line     int
 }
 
 type SpecDB struct {
@@ -193,7 +196,11 @@ func (db *SpecDB) LoadFile(path, pkgPath string) error {
 		case "package":
 			pkgPath = rest
 		case "prop":
-			if cur != nil {
+			if curLemma != nil {
+				for _, f := range fields[1:] {
+					curLemma.Props[f] = true
+				}
+			} else if cur != nil {
 				for _, f := range fields[1:] {
 					cur.Props[f] = true
 				}
@@ -289,6 +296,10 @@ func (db *SpecDB) LoadFile(path, pkgPath string) error {
 					inner = inner[:j]
 				}
 				ss.Callee = inner
+			} else if strings.HasPrefix(site, "def(") && strings.HasSuffix(site, ")") {
+				// at def(x): where the local variable x is declared (x := ... / var x)
+				ss.Kind = "def"
+				ss.Callee = site[4 : len(site)-1]
 			} else {
 				db.errf(path, rc.line, "unknown site %q", site)
 				continue
@@ -385,6 +396,8 @@ func (db *SpecDB) LoadFile(path, pkgPath string) error {
 			}
 			lm.Pkg = pkgPath
 			lm.Text = rest
+			lm.Props = map[string]bool{}
+			lm.File, lm.Line = path, rc.line
 			db.Lemmas = append(db.Lemmas, lm)
 			curLemma = lm
 			cur = nil
@@ -611,7 +624,7 @@ func parseSpecExpr(s string) (*SExpr, error) {
 	{
 		d := 0
 		inStr := false
-		for i := 1; i < len(s); i++ {
+		for i := 0; i < len(s); i++ {
 			c := s[i]
 			if inStr {
 				if c == '\\' {
@@ -629,7 +642,7 @@ func parseSpecExpr(s string) (*SExpr, error) {
 			case ')', ']', '}':
 				d--
 			}
-			if d == 0 && (strings.HasPrefix(s[i:], "forall ") || strings.HasPrefix(s[i:], "exists ")) && !isIdentChar(s[i-1]) {
+			if i > 0 && d == 0 && (strings.HasPrefix(s[i:], "forall ") || strings.HasPrefix(s[i:], "exists ")) && !isIdentChar(s[i-1]) {
 				s = s[:i] + "(" + s[i:] + ")"
 				break
 			}
